@@ -76,7 +76,7 @@ def plan_calls(rng, dom, tier):
             c["d"] = float(want / max(base, 1e-9))
         if lvl == "sampler" and fn in ("random", "grid") and rng.random() < 0.3 and pts.shape[0] > 20 \
                 and not (d == 1 and target == "boundary") \
-                and not (target == "boundary" and c.get("n") == 1) \
+                and not (target == "boundary" and c.get("n", 99) < 10) \
                 and not (info["dep"] and kind in ("rotate", "translate")) and kind != "product":
             ax = int(rng.integers(0, d))
             move0 = _move0(spec) if info["dep"] else 0.0
